@@ -21,7 +21,7 @@ type C13Plan struct {
 	Mode     string          `json:"mode"` // "dst", "src", "dearmor" (armor reader alone), "enarmor" (armor writer alone)
 	File     lib.FileSpec    `json:"file"`
 	Segs     []int           `json:"segs,omitempty"`
-	Sweep    bool            `json:"sweep,omitempty"` // enumerate every fault point of this file
+	Sweep    bool            `json:"sweep,omitempty"`  // enumerate every fault point of this file
 	Coarse   bool            `json:"coarse,omitempty"` // sweep of a large file: every write call / every offset within 2 bytes of a write or chunk boundary
 	Disk     *seam.DiskFault `json:"disk_fault,omitempty"`
 	Src      *seam.SrcFault  `json:"src_fault,omitempty"`
@@ -44,7 +44,7 @@ func (C13) Runs(tier string) int {
 func (C13) Meta() core.Meta {
 	return core.Meta{
 		Level: "fault_enumeration",
-		Rule: "a case = (file spec, write segmentation or delivery+read schedule, one injected fault); sweep runs enumerate every write-call index x {permanent,once} x {none,partial} and every byte offset x {permanent,once} of a small file (destination) or every byte offset 0..len x K in {0,1,rest} x {sticky,once-data,once-eof} (source); sampled runs place one fault in multi-chunk files near write/chunk boundaries; coarse sweeps of multi-chunk files enumerate every write call (destination) and every offset within 2 bytes of the header end, the nonce and each chunk boundary (source). Non-trivial = the fault fired inside an operation in flight; distinct = distinct (file skeleton, schedule, fault kind, fault position).",
+		Rule:  "a case = (file spec, write segmentation or delivery+read schedule, one injected fault); sweep runs enumerate every write-call index x {permanent,once} x {none,partial} and every byte offset x {permanent,once} of a small file (destination) or every byte offset 0..len x K in {0,1,rest} x {sticky,once-data,once-eof} (source); sampled runs place one fault in multi-chunk files near write/chunk boundaries; coarse sweeps of multi-chunk files enumerate every write call (destination) and every offset within 2 bytes of the header end, the nonce and each chunk boundary (source). Non-trivial = the fault fired inside an operation in flight; distinct = distinct (file skeleton, schedule, fault kind, fault position).",
 		Assumptions: []string{
 			"the destination honours io.Writer (never n<len with nil error); the source never returns (0,nil)",
 			"reference model (sim/ref, validated on the 114 CCTV vectors) decides 'complete valid file for P'",
